@@ -310,6 +310,41 @@ def build_events(level="full"):
             return {"validate": bool(g.validate())}
 
     ev["validate()"] = ("value", validate)
+
+    # computations on data attached to the grid (they read the grid's tables and caches)
+    def data_ev(elem, fn):
+        def f(g):
+            import uxarray as ux
+
+            n = {"n_face": g.n_face, "n_node": g.n_node}[elem]
+            vals = np.sin(1.0 + 2.3 * np.arange(n)) * 3.0 + 0.01 * np.arange(n)
+            da = ux.UxDataArray(vals, dims=[elem], uxgrid=g, name="fld")
+            r = fn(da, g)
+            out = {}
+            if hasattr(r, "values") and hasattr(r, "dims"):
+                out["values"] = np.asarray(r.values, dtype=float)
+                out["dims"] = ",".join(map(str, r.dims))
+            elif hasattr(r, "columns"):
+                obs_gdf(r, out)
+            else:
+                obs_collection(r, out)
+            return out
+
+        return f
+
+    ev["data:gradient"] = ("value", data_ev("n_face", lambda da, g: da.gradient()))
+    ev["data:difference(face)"] = ("value", data_ev("n_face", lambda da, g: da.difference("edge")))
+    ev["data:difference(node)"] = ("value", data_ev("n_node", lambda da, g: da.difference("edge")))
+    ev["data:integrate"] = ("value", data_ev("n_face", lambda da, g: da.integrate()))
+    ev["data:integrate(gaussian,3)"] = ("value", data_ev("n_face", lambda da, g: da.integrate("gaussian", 3)))
+    ev["data:topological_mean(face)"] = ("value", data_ev("n_node", lambda da, g: da.topological_mean(destination="face")))
+    ev["data:topological_max(edge)"] = ("value", data_ev("n_node", lambda da, g: da.topological_max(destination="edge")))
+    ev["data:nn_remap(self,nodes)"] = ("value", data_ev("n_face", lambda da, g: da.remap.nearest_neighbor(g, remap_to="nodes")))
+    ev["data:idw_remap(self,edges)"] = ("value", data_ev("n_node", lambda da, g: da.remap.inverse_distance_weighted(g, remap_to="edge centers", k=2)))
+    ev["data:to_geodataframe"] = ("value", data_ev("n_face", lambda da, g: da.to_geodataframe()))
+    ev["data:to_polycollection"] = ("value", data_ev("n_face", lambda da, g: da.to_polycollection()))
+    ev["data:isel(n_face=[0])"] = ("value", data_ev("n_face", lambda da, g: da.isel(n_face=[0])))
+    ev["data:subset.nn"] = ("value", data_ev("n_node", lambda da, g: da.subset.nearest_neighbor((31.0, 12.0), k=2, element="nodes")))
     ev["getitem(face_node)"] = ("value", lambda g: (lambda o: (obs_dataarray("x", g["face_node_connectivity"], o), o)[1])({}))
     return ev
 
